@@ -35,9 +35,16 @@ check('C01', 'proof',
       'query, with the negative theorem for the pre-fix str.lower() (U+0130). Unit correspondence replays ~40k RECORDED '
       'calls of the real extractors (regex match spans captured by wrapping regex from the harness) through the Lean model; '
       'preprocess is compared on EVERY code point. Pipeline: the predicate spanOK on every entity of every registered '
-      '(model, culture) pair (81) over Specs inputs, generated expressions in carriers and a noise pool.',
-      TB + 'Culture configurations, NumberWithUnit prefix/suffix selection, remaining date-time sub-extractor arithmetic and Choice are '
-      'reached only by the pipeline predicate. 58 recorded findings keyed by input (zh-cn date-time offsets).',
+      '(model, culture) pair (81) over Specs inputs, generated expressions in carriers and a noise pool. '
+      'BaseMergedExtractor.extract\'s span pipeline (add_to chain, filters, add_mod merges, sort) is modelled for ANY '
+      'sub-extractor outputs and regex outcomes: mergedExtract_spans (outputs lie in the query, text = slice, each comes from a '
+      'sub-extractor entity); BaseMergedParser\'s modifier push/pop with both modifiers in sequence: parser_push_pop (restored '
+      'start/length/text equal the originals for every modifier combination at the start of the text) with kernel-decided '
+      'witnesses for a dropped has_around reset, equal+around and a leading blank. Recorded calls of the real merged extractors '
+      '(8 cultures), Chinese add_to and the merged parser are replayed in the model.',
+      TB + 'Culture configurations, the date-time sub-extractors\' own token arithmetic (before merge_all_tokens) and '
+      'ChineseMergedExtractor.add_mod are reached only by the pipeline predicate (NumberWithUnit extraction: C05/UnitExtract; '
+      'Choice: C20). 58 recorded findings keyed by input (zh-cn date-time offsets).',
       'Lean 4 proof (span algebra universal over regex behaviour) + recorded-call correspondence + pipeline predicate',
       'DESIGN.md §3 C01')
 
@@ -66,8 +73,10 @@ check('C03', 'proof',
       'exponent >= -6 the resolution consists of digits, an optional sign and the culture\'s decimal mark only: no exponent, '
       'never the grouping mark); percent_literal_general (percentage = number resolution + one %, all cultures but zh-cn); '
       'digital_round16; facts on the regenerated configurations (marks read = marks written, grouping mark foreign to the '
-      'output). "No trailing zeros / reads back as the value" is NOT proved in general (closed instances + unit '
-      'correspondence of format). Tie: ~130k decimal / parser / format operations per run against CPython and the parser, and '
+      'output); format_canonical_reads_back / number_literal_general: for values >= 10^-6 the resolution string read with the '
+      'culture\'s decimal mark is exactly the literal\'s sign and value, no trailing fraction zeros (witnesses outside the guard: '
+      'zero_fraction_witness 0.0 -> 0E-55, single_mark_nonstandard_witness); constants_regenerated (NBSP, Decimal(0.1), the '
+      '@precision argument). Tie: ~130k decimal / parser / format operations per run against CPython and the parser, and '
       'the pipeline oracle (literal shape x boundary magnitude x culture through recognize_number / recognize_percentage).',
       TB + 'Extractor regexes and the percentage position map are monitored only. 8 recorded findings (CJK grouped percentages).',
       'Lean 4 proof (general over literals and configurations) + regenerated configurations + unit and pipeline correspondence',
@@ -77,8 +86,8 @@ check('C04', 'proof',
       'english_cardinal / english_ordinal: getIntValue en (spell n v) = n and the ordinal analogue for ALL n < 10^15 and all 8 '
       'spelling variants, by induction over the group structure, with the finite word facts evaluated by the kernel on the '
       'regenerated English maps (a changed map entry breaks an obligation). Other cultures, with their regenerated maps and '
-      'their own resolve_composite_number, by kernel evaluation over the whole range: spanish_ / portuguese_ / german_ / '
-      'dutch_sub1000 (all n < 1000), french_sub1000_partial and italian_sub1000_partial (exact guards + witnesses that are the '
+      'their own resolve_composite_number: spanish_ / portuguese_ / german_ / dutch_sub1e6 (ALL n < 10^6, structural lemma '
+      'thousand_group for any language configuration + sub-1000 kernel evaluation), french_sub1000_partial and italian_sub1000_partial (exact guards + witnesses that are the '
       'recorded findings: plural `cents`, accented `-tré`), cjk_int_zh (all n < 10000), cjk_int_ja_partial (exact guard + '
       'witnesses 二百十八 -> 228). The Lean spell functions are the generators the harness uses; text_number_regex must tokenise '
       'each numeral into exactly the specification\'s tokens. round_map_consistent (en, es, fr, pt, it, nl: every RoundNumberMap '
@@ -202,10 +211,20 @@ check('C11', 'proof',
       'definite_timex_value_date, min_value_filtered: the minimum date never reaches the output, type_name_agrees), tied to '
       'DateTimeFormatUtil / _determine_date_time_types / _date_time_resolution by unit correspondence. The predicate is '
       'evaluated (compiled driver) on every entity of recognize_datetime over all Python-supported DateTime Specs inputs of '
-      'all cultures and generated expressions (incl. dates that do not exist) under references spread over 1950..2090.',
-      TB + 'Parsers that build value strings by concatenation (period parsers, CJK parsers, holidays) are NOT modelled: for them the '
-      'monitor is the only check. Entities with resolution None are counted, not judged. 35 recorded findings keyed by input.',
-      'Lean 4 proof about the assembly + Lean spec predicate evaluated on every entity the implementation returns',
+      'all cultures and generated expressions (incl. dates that do not exist, a bare day of the month under a reference in every '
+      'month for 8 cultures, holidays) under references spread over 1950..2090; sentinelOK rejects values derived from the '
+      'minimum-date marker (0001-02-01 ...). HOLIDAYS are modelled: the date-function tables of 7 cultures are translated from '
+      'the source text (ast) on every run, get_day / get_last_day, every function and _match2date (year, next/last/this, '
+      'future/past choice) are Lean functions; proved for any table, key, year, order word and reference: '
+      'holiday_values_wellformed (every emitted value is a valid calendar date or not resolved), holiday_definite_agrees (explicit '
+      'year + fixed-date holiday: TIMEX YYYY-MM-DD = value), holiday_values_sentinel_free; for every year 1..9999 '
+      'holiday_fn_never_raises, holiday_nth_weekday / holiday_last_weekday (the (k+1)-th / last <weekday> of the month) on the '
+      'regenerated tables (holiday_tables_sane; holiday_unknown_functions lists what the translator cannot classify).',
+      TB + 'Period parsers (see C08/C10 for the calendar arithmetic) and CJK parsers (incl. ChineseHolidayParser) build value strings '
+      'that are NOT modelled here: for them the Lean predicate evaluated on the real output is the only check. The regex match '
+      'and holiday_names lookup are inputs of the holiday model. Entities with resolution None are counted, not judged. Recorded '
+      'findings keyed by input.',
+      'Lean 4 proof about the assembly and the holiday parser (tables translated from source) + Lean spec predicates evaluated on every entity the implementation returns',
       'DESIGN.md §3 C11')
 
 check('C12', 'proof',
@@ -216,8 +235,11 @@ check('C12', 'proof',
       'positive addTo_disjoint_of_noCrossing under a monitored hypothesis. Unit correspondence on recorded calls of the real '
       'sweeps / merge_all_tokens / add_to / the NumberWithUnit filter; pipeline: pairwise disjointness of the entities of '
       'every registered (model, culture) pair over Specs inputs, generated expressions (alone, in carriers, several per '
-      'sentence) and noise.',
-      TB + '671 recorded findings keyed by input: overlapping entities that the cross-platform Specs expect (date-time add_to crossings), '
+      'sentence) and noise. mergedExtract_disjoint: the merged extractor\'s output is disjoint whenever no add_to step crosses '
+      '(ChainNoCrossing, shown to be the EXACT per-step condition by addTo_step_disjoint_iff) and modifier extensions stay clear; '
+      'mergedExtract_disjoint_of_laminar: the chain condition holds for nested-or-apart sub-extractor outputs; '
+      'nwu_filter_sym_no_nesting for the repaired NumberWithUnit filter (fix dd3ca4396).',
+      TB + 'The recorded overlaps are classified by mechanism in findings/span/overlap-mechanisms.md. ~650 recorded findings keyed by input: overlapping entities that the cross-platform Specs expect (date-time add_to crossings), '
       'NumberWithUnit results sharing a unit character, zh-cn date-time spans. A new overlapping input is still a violation.',
       'Lean 4 proof (universal over regex behaviour) + recorded-call correspondence + pipeline disjointness monitor',
       'DESIGN.md §3 C12')
@@ -232,10 +254,15 @@ check('C13', 'proof',
       'the span of a regex match). Pipeline: recognize_ip_address / recognize_guid against Python\'s ipaddress / uuid as '
       'independent oracles (10^4 boundary quads, seeded v4/v6 at every compression position, near misses, 4 GUID layouts, '
       'carrier sentences; zh-cn / ja-jp models too). Hashtag, mention and e-mail languages are proved as well (hashtag_lang, '
-      'hashtag_reported_span, mention_lang, mention_reported_span, email_lang); URL and phone patterns are translated and under '
-      'the regex correspondence, but have no theorem (pipeline oracle only).',
-      TB + 'IPv6 exact reported span (no uniqueness theorem: `1::2` is also a match inside `1::2:3`), QueryProcessor.preprocess and the '
-      'e-mail/URL/hashtag/mention/phone regexes are covered by correspondence only. The `regex` module\'s own \\d/\\w/\\s tables are exported each run.',
+      'hashtag_reported_span, mention_lang, mention_reported_span, email_lang). URL: BaseURLExtractor is modelled (three '
+      'regenerated regexes with a capture matcher endsCap, _is_valid_match with the TLD check through the C16 trie model on the '
+      'regenerated TldList, ambiguous-time-term rejection, sweep): url_reported_valid (UNIVERSAL: every reported URL has the span '
+      'of a match that passed _is_valid_match) and url_grammar_recognised (an explicit 1080-string grammar scheme x host x listed '
+      'TLD x tail: a covering family of 130 queries kernel-evaluated through the whole modelled recognize_url, the full language '
+      'through the implementation). Phone: BasePhoneNumberExtractor.extract is modelled with every regex answer as an oracle: '
+      'phone_post_span, phone_kept_prefix (for ANY regex outcome), phone_extract_spec (on the regenerated regexes).',
+      TB + 'IPv6 exact reported span (no uniqueness theorem: `1::2` is also a match inside `1::2:3`), e-mail first-end, URL '
+      'completeness beyond the grammar and phone completeness / score are covered by correspondence only; preprocess via the C01 model. The `regex` module\'s own \\d/\\w/\\s tables are exported each run.',
       'Lean 4 proofs on regex ASTs regenerated from source + regex/unit/pipeline correspondence',
       'DESIGN.md §3 C13')
 
@@ -247,7 +274,9 @@ check('C14', 'proof',
       'TimexCreator constants and DAYS the proofs were written for are re-read from the tree each run (genCfg_ok). '
       'Also proved: date+time and date+part-of-day combinations, integer durations for all seven units (parse_dur, format_dur, '
       'duration_int_roundtrip) and fractional amounts (duration_frac_roundtrip, under the exact guard that str(Decimal) stays '
-      'plain; the other side of the guard is the recorded tiny-amount finding). Correspondence ~18k parse + 10k from_* cases, a '
+      'plain; tiny_amount_general proves the other side: beyond the guard the text is scientific and no longer parses — the '
+      'recorded tiny-amount finding). The rest of the package (to_string, to_natural_language, TimexCreator, inference on the '
+      'grammar) is modelled, tied by correspondence and characterised by theorems, but lies outside the property. Correspondence ~18k parse + 10k from_* cases, a '
       'regex-independent constructor field grid and a committed corpus of 915 canonical strings.',
       TB + 'CPython Decimal printing is modelled (incl. scientific form). One recorded finding: tiny-amount-scientific.',
       'Lean 4 proof about a faithful model + unit correspondence against the working tree\'s package',
@@ -257,10 +286,15 @@ check('C15', 'proof',
       'Proved for all inputs on the Lean model of TimexResolver / TimexHelpers / TimexConstraintsHelper: weekday_resolve '
       '(exactly two date values, the asked weekday strictly before / after the reference, within 7 days), duration_seconds '
       '(all seven units), year_range, month_range including December, week_range (Monday to next Monday from CPython\'s ISO '
-      'week rule), collapse_terminates (at most len(ranges) rounds for any overlap predicate). TimexRangeResolver.evaluate '
-      'soundness/completeness is NOT proved: it is covered by model-vs-tree correspondence (~81k operations per quick run, '
-      'every resolver/evaluate call in a guarded worker with time and memory limits) and independent property oracles.',
-      TB + 'Nine defects of the package found by this check were repaired in /repo (fix: commits listed in known_findings.json).',
+      'week rule), collapse_terminates (at most len(ranges) rounds for any overlap predicate). TimexRangeResolver.evaluate: '
+      'evaluate_sound end to end for all candidate families (stages234_sound), evaluate_sound_durations (duration candidates: '
+      'stage 1 = calendar sum of datetime constraint and duration, datetimeAdd_dur), evaluate_sound_grammar (candidate '
+      'hypotheses discharged for ALL grammar strings), evaluate_complete_weekday / _monthday / _hours, '
+      'monthday_stage_never_raises. Tie: model-vs-tree correspondence (~81k operations per quick run, every resolver/evaluate '
+      'call in a guarded worker with time and memory limits) and independent property oracles (timedelta sums).',
+      TB + 'Not covered by a theorem: duration candidates against time-only / time-range constraints and year/month durations; '
+      'time-range candidates. Nine defects of the package found by this check were repaired in /repo (fix: commits listed in '
+      'known_findings.json).',
       'Lean 4 proof about a faithful model + unit and pipeline correspondence',
       'DESIGN.md §3 C15')
 
@@ -305,9 +339,14 @@ check('C17', 'proof',
       'str.lower: map_supported_any_case, map_unique_language, map_other_falls_back (the full routing statement), '
       'no_model_falls_back, cache_key_separation (every history of construct / get / wrapper / factory-get / try-get / init: '
       'each returned model was built by the constructor registered for exactly the requested type, resolved-or-fallback '
-      'culture and options), same_key_same_object, register_duplicate_rejected, options_out_of_range_rejected; table facts '
-      're-decided by the kernel. Tie: ~24k culture strings, register/option unit checks, a 1.2k-op (3.1k thorough) seeded '
-      'history on instrumented real recognisers predicted exactly incl. object identities, probe sentences.',
+      'culture and options), same_key_same_object, register_duplicate_rejected, options_out_of_range_rejected, '
+      'target_default_equiv (a recogniser with target T asked with culture None answers exactly like culture T), '
+      'empty_culture_never_target, getter_case_insensitive (equal str.lower => identical routing in every getter incl. the '
+      'zh-/ja- shortcut ones); table facts re-decided by the kernel. Tie: ~24k culture strings, register/option unit checks, a '
+      '~20k-op seeded history on instrumented real recognisers predicted exactly incl. object identities: recogniser objects of '
+      'all five kinds x ~85 target spellings (letter case, regional variants, unknown, empty, None) x request culture None / '
+      'empty / explicit x every getter x fallback, every supported code in all 16 letter-case patterns; models identified by '
+      'identity against reference models from try_get_model.',
       TB + 'Constructors assumed total and deterministic; user register_model on live recognisers outside the histories; final-sigma '
       'lower-casing not modelled.',
       'Lean 4 proof (invariant over operation histories) + regenerated tables + unit and history correspondence',
@@ -316,7 +355,8 @@ check('C17', 'proof',
 check('C18', 'translation_validation',
       'Exhaustive on every run: the repository\'s own resource generator is re-run on Patterns/*.yaml for every entry of the '
       'five resource-definitions.json and compared with the checked-in module definition by definition (source text and '
-      'evaluated attribute values); a finite artefact equality is decided by comparison, not by a theorem. Lean supplies a '
+      'evaluated attribute values); every checked-in resource module must be generated by some entry (orphan-module); a finite '
+      'artefact equality is decided by comparison, not by a theorem. Lean supplies a '
       'verified reference emitter for the WHOLE generator (every writer of code_writer.py behind generate_code\'s dispatch, '
       'generate\'s file assembly incl. str.splitlines) that must be byte-identical to the repository\'s generator on every one '
       'of the 3,732 definitions / 45 modules, and an evaluator of the emitted text (f-strings with {Name}/{Cls.Name} fields, '
@@ -334,14 +374,15 @@ check('C18', 'translation_validation',
 check('C19', 'other',
       'Exhaustive replay of the Python-supported Specs corpus (14,914 cases: model / extractor / parser / merged-parser '
       'levels) through the repository\'s own runner against the working tree on every run; each failing case is reported as a '
-      'concrete failing input. For the spec families the Lean models cover end to end (108 cases: English and Chinese '
-      'IpAddressModel, GUIDModel, English BooleanModel) the model is a kernel-checked intermediary: RTV.Props.C19 proves '
-      'model(input) = expected entities for every regenerated case (spec_ip_cases, spec_ip_cases_zh, spec_guid_cases, '
-      'spec_boolean_cases by decide +kernel) and the correspondence gives implementation = model on the same inputs. For '
+      'concrete failing input. For the spec families the Lean models cover end to end (233 cases: Sequence IpAddress (en, zh/ja), '
+      'GUID, Hashtag, Mention, Email, URL (en, zh/ja) and English BooleanModel) the model is a kernel-checked intermediary: '
+      'RTV.Props.C19 proves model(input) = expected entities for every regenerated case (spec_ip_cases, spec_ip_cases_zh, '
+      'spec_guid_cases, spec_boolean_cases, spec_hashtag_cases, spec_mention_cases, spec_email_cases, spec_url_cases, '
+      'spec_url_cases_zh by decide +kernel) and the correspondence gives implementation = model on the same inputs. For '
       'all other cases no theorem applies: the subject is the whole un-modelled implementation on a literal corpus.',
       'Trusted: the repository\'s test runner (Python/tests), pytest, the datedelta/grapheme shims. The pinned 204-test suite '
       'never touches /repo\'s recogniser code (it imports site-packages); this check sets PYTHONPATH to the working tree.',
-      'exhaustive differential replay of the Specs corpus + kernel-checked model = spec obligations for 108 cases',
+      'exhaustive differential replay of the Specs corpus + kernel-checked model = spec obligations for 233 cases',
       'DESIGN.md §3 C19')
 
 check('C20', 'proof',
